@@ -54,7 +54,7 @@ ASSUMPTIONS = [
 ]
 TIERS = {
     "quick": {"examples": 1000, "budget_s": 150},
-    "thorough": {"examples": 62500, "budget_s": 800},
+    "thorough": {"examples": 30000, "budget_s": 800},
 }
 
 N_META_ROWS = 15   # 14 metadata rows + 1 empty row, then the header row
